@@ -11,6 +11,16 @@ def run(ctx):
     s, _ = ctx.run_vh(["pipe", "--mode", "delivery", "--runs", 12 if q else 150, "--seed", ctx.seed, "--out", tf], timeout=3400)
     r = ctx.validate_parallel("PipeTrace", tf, parts=8 if q else 16, expect_events=s.get("events"), timeout=3000)
     ctx.add_violations([d for d in r["devs"] if d["tag"].startswith("C05.")], tf)
+    # the same delivery runs with tcell's real device Tty on a pseudo-terminal (the harness types at the master side)
+    tfp = ctx.work + "/trace_pty.ndjson"
+    sp, _ = ctx.run_vh(["pipe", "--mode", "delivery", "--runs", 6 if q else 60, "--seed", ctx.seed + 1, "--tty", "pty", "--out", tfp],
+                       timeout=3400)
+    if sp.get("skipped"):
+        ctx.assumptions.append("no pseudo-terminal available here (%s): the device-Tty runs were skipped" % sp["skipped"])
+    else:
+        rp = ctx.validate_parallel("PipeTrace", tfp, parts=6 if q else 12, expect_events=sp.get("events"), timeout=3000)
+        ctx.add_violations([d for d in rp["devs"] if d["tag"].startswith("C05.")], tfp, label="pty")
+    ctx.cov["pty_histories"] = sp["histories"]
     ctx.cov.update(traces_validated_against_impl=s["histories"], evaluations=s["ops"], distinct_nontrivial=s["distinct"],
                    events_validated=r["lines"])
     ctx.samples.extend(s.get("samples", []))
@@ -22,4 +32,4 @@ def run(ctx):
                rule="M: Pipe.tla safety invariants (InOrderOnce, PostsOK, NoLoss, NothingLostWithoutShutdown) over all "
                     "interleavings; code: seeded runs with sequence-numbered keys in chunks of 1-3, focus reports, 1-3 posting "
                     "goroutines, resize notifications, and a poller (PollEvent or ChannelEvents) that pauses at random, "
-                    "including pauses long enough to fill both queues")
+                    "including pauses long enough to fill both queues; run on the fake Tty and on the real device Tty over a pty")
